@@ -36,7 +36,21 @@ def run(ctx):
         isc = [blk for blk in z.blocks if r.is_sem_call(z, blk.term, 'is_closed') and not blk.cleanup]
         if isc and z.blocks[isc[0].term.target].term.kind == 'switch':
             fl = dict(z.blocks[isc[0].term.target].term.switch_arms()).get('false')
-            esc = an.reach([fl], ('normal',), avoid=[bb])
+            # an arm on which the requested size equals the current limit needs no write (the value is there already)
+            same = []
+            for blk2 in z.blocks:
+                if blk2.term.kind == 'switch' and blk2.term.j.get('dty') == 'bool' and not blk2.cleanup:
+                    for lab2, tgt2 in blk2.term.switch_arms():
+                        bc = branch_condition(an, blk2, lab2)
+                        if bc and bc[0] == 'Eq':
+                            sa = sources(an, bc[1]); sb = sources(an, bc[2])
+                            def is_arg_(x):
+                                return any(y[0] == 'arg' for y in x) and not any(y[0] in ('bin', 'call', 'field', 'const') for y in x)
+                            def is_max_(x):
+                                return ('field', '%s.%s' % (r.SLOTS, r.MAX)) in x and not any(y[0] in ('bin', 'const', 'arg') for y in x) and not any(y[0] == 'field' and y[1].startswith(r.SLOTS + '.') and y[1] != '%s.%s' % (r.SLOTS, r.MAX) for y in x)
+                            if (is_arg_(sa) and is_max_(sb)) or (is_arg_(sb) and is_max_(sa)):
+                                same.append(tgt2)
+            esc = an.reach([fl], ('normal',), avoid=[bb] + same)
             ctx.ob('R07.1', 'max_size written on every path of an open pool', not any(e in esc for e in rets), ctx.where(z, s.line), '', construct='resize:max-write-allpaths')
         g = guard_root(an, s.place)
         ctx.ob('R07.1', 'max_size written under the slots lock', g is not None, ctx.where(z, s.line), '', construct='resize:max-write-lock')
